@@ -136,7 +136,7 @@ def run(facts):
         # unsplit: append only when try_unsplit reported Err
         if root.endswith("::unsplit"):
             merged_failed = any(r[0] in ("truth", "notin", "eq") and "try_unsplit" in str(canon(r[1])) for r in rels)
-            if not merged_failed:
+            if not merged_failed and b.id == root:
                 # the merge written out in place (`if self.is_directly_followed_by(&other) { self.len += other.len; .. } else { copy }`): the copy
                 # sits on the other side of the branch that merges (A8 decides that the merge side is taken exactly under adjacency)
                 ebm = ExprBuilder(b, facts, inline=False)
